@@ -392,7 +392,9 @@ written — the `boolean_equal` fast-path guard over all four of `lhs_start, rhs
 rhs.offset()` and its byte indexing `start / 8 + offset / 8`, the four cases of `equal_nulls`,
 `contains_nulls`, the three paths of `primitive_equal`, `byte_view_equal`'s null test at
 `lhs_start + idx` and inline limit 12, which start/offset struct / fixed-size-list / list /
-dictionary parents pass to their children, and the Struct case of `ArrayData::slice`.  An edit to
+dictionary parents pass to their children, the Struct case of `ArrayData::slice`, and the
+`is_valid(idx).then_some(..)` of arrow-select's dictionary-value interning (`masked_primitives_to_bytes`,
+`masked_bytes`: a null dictionary value is never interned by the bytes under it).  An edit to
 any of them makes the item LOST and this theorem false. -/
 theorem source_shape_ties :
     NULL_SLICES_SELECTIVITY_THRESHOLD_lost = false ∧
@@ -414,6 +416,8 @@ theorem source_shape_ties :
     (LIST_REBASE_lost = false ∧ LIST_REBASE = 2) ∧
     (DICT_KEYS_lost = false ∧ DICT_KEYS = 1) ∧
     (VAR_OFFSETS_lost = false ∧ VAR_OFFSETS = 1) ∧
+    (MERGE_PRIMITIVE_VALUE_VALIDITY_lost = false ∧ MERGE_PRIMITIVE_VALUE_VALIDITY = 2) ∧
+    (MERGE_BYTES_VALUE_VALIDITY_lost = false ∧ MERGE_BYTES_VALUE_VALIDITY = 2) ∧
     (SLICE_STRUCT_lost = false ∧ SLICE_STRUCT = 2) := by
   decide
 
